@@ -354,6 +354,7 @@ type UserDelegate struct {
 	MetaEntered chan struct{} // if set, NotifyMsg blocks until it can receive
 	FillExact   bool          // hand out as much as fits
 	OnMsg       func([]byte)
+	StateDelay  time.Duration // LocalState takes this long (set before the node starts)
 }
 
 type HandOut struct {
@@ -432,6 +433,9 @@ func (d *UserDelegate) GetBroadcasts(overhead, limit int) [][]byte {
 }
 
 func (d *UserDelegate) LocalState(join bool) []byte {
+	if w := d.StateDelay; w > 0 {
+		time.Sleep(w) // an application that takes its time to serialise its state
+	}
 	d.mu.Lock()
 	defer d.mu.Unlock()
 	d.LocalCalls++
